@@ -617,6 +617,23 @@ func (env *Env) evalCall(t *ECall) Value {
 			}
 		}
 		return env.boolv(tFalse)
+	case "istype":
+		// istype(v, "T"): the dynamic type of the interface value v is the named type T of the
+		// function's own package (same tag as a type assertion v.(T) tests)
+		v := env.eval(t.Args[0])
+		lit, ok := t.Args[1].(*EStr)
+		if !ok {
+			env.fail("istype(): the second argument is a string literal")
+		}
+		tn, ok := env.pkg.Scope().Lookup(lit.V).(*types.TypeName)
+		if !ok {
+			env.fail("istype(): no type %s in the package", lit.V)
+		}
+		if _, isIface := v.T.Underlying().(*types.Interface); !isIface || len(v.L) != 1 {
+			env.fail("istype(): the first argument is an interface value")
+		}
+		tag := c.Fun("iface.tag", []Sort{SInt}, SInt)
+		return env.boolv(and(not(eq(v.Term(), intLit(0))), eq(tag(v.Term()), intLit(int64(tagOf(tn.Type()))))))
 	case "calls":
 		// calls(f): how many calls named f the function's own body has executed so far
 		k, ok := x.callCounters[exprString(t.Args[0])]
